@@ -281,7 +281,42 @@ def r15_6(ctx: Ctx) -> None:
     ctx.floor("R15.6", n_h, 1, "OSError/catch-all handlers in the write closure")
 
 
+def r15_7(ctx: Ctx) -> None:
+    """a source that fails MIDWAY leaves bytes in the packed stream that no member accounts for; the rollback of R15.1 is only sound when
+    nothing was consumed.  The handler around Worker.archive therefore records (in a field of the archive object) whether the
+    compressor took any input during the failed call, and _write_flush refuses to write the header when it did - the file keeps the
+    placeholder / overwritten header and never opens with wrong contents."""
+    flush = shared.szf(ctx, "_write_flush")
+    fcfg = cfg_of(flush.node)
+    # fields whose truth makes _write_flush raise before anything is written
+    poison = set()
+    for t in fcfg.nodes:
+        if t.kind != "test":
+            continue
+        for pol in (True, False):
+            e = next((x for x in t.succ if x.kind == ("true" if pol else "false")), None)
+            if e is not None and q.branch_always_raises(fcfg, e):
+                for a, ap in q.atoms(t.ast, pol):
+                    if isinstance(a, ast.Attribute) and isinstance(a.value, ast.Name) and a.value.id == "self" and ap:
+                        poison.add(a.attr)
+    for name in ("write", "_writef"):
+        f = shared.szf(ctx, name)
+        arch = [c for c in q.calls(f) if "py7zr:Worker.archive" in shared.targets_of(ctx, f, c)]
+        for tr in [n for n in walk(f.node) if isinstance(n, ast.Try) and any(a in list(ast.walk(st)) for a in arch for st in n.body)]:
+            for h in tr.handlers:
+                sets = [n for n in ast.walk(h) if isinstance(n, ast.Assign) and any(isinstance(t, ast.Attribute) and isinstance(t.value, ast.Name) and t.value.id == "self"
+                                                                                      and t.attr in poison for t in n.targets)]
+                looks = any(isinstance(x, ast.Attribute) and x.attr in ("consumed", "_unpacksizes", "unpacksizes", "packsize") for s_ in sets for x in ast.walk(s_.value)) or \
+                    any(isinstance(x, ast.Attribute) and x.attr in ("consumed", "_unpacksizes", "unpacksizes", "packsize") for x in ast.walk(h) if sets)
+                ctx.check(bool(sets) and looks, "R15.7", f, h, f"{name}: a source that failed midway poisons the session",
+                          f"{name} rolls the registration back and re-raises also when the source failed after part of it had been compressed: those bytes stay in the packed "
+                          "stream and in the folder's size, later writes and close() succeed and the archive is silently corrupt (members after the failure cannot be extracted). "
+                          + ("No field that makes _write_flush refuse is set in the handler." if not sets else "The handler does not look at what the compressor consumed."),
+                          construct=f"{name} mid-read failure")
+
+
 def run(ctx: Ctx) -> None:
+    r15_7(ctx)
     r15_6(ctx)
     r15_1(ctx)
     r15_2(ctx)
